@@ -9,8 +9,8 @@ from pathlib import Path
 
 HOME = Path(os.environ.get('VERIF_HOME', Path(__file__).resolve().parents[1]))
 REPO = Path(os.environ.get('VERIF_REPO', '/repo')).resolve()
-EVIDENCE_DIR = HOME / 'evidence'
-REPLAY_DIR = HOME / 'replays'
+EVIDENCE_DIR = Path(os.environ.get('VERIF_EVIDENCE_DIR', HOME / 'evidence'))
+REPLAY_DIR = Path(os.environ.get('VERIF_REPLAY_DIR', HOME / 'replays'))
 PYTHON = os.environ.get('VERIF_PYTHON', '/venv/bin/python')
 NCPU = int(os.environ.get('VERIF_JOBS', '16'))
 
